@@ -168,6 +168,13 @@ func vfFlowClientScenario(tb testing.TB, env *vfEnv, tn int, rnd *rand.Rand) {
 	}
 	piw := []uint32{65535, 0, 1, 2, 1000, 16384, 65535, 1 << 20}[rnd.Intn(8)]
 	pmf := []uint32{16384, 16384, 16385, 20000, 1<<24 - 1}[rnd.Intn(5)]
+	// shrinkMF: the server starts with a large SETTINGS_MAX_FRAME_SIZE and lowers it while a
+	// request body is in progress; later DATA frames must obey the value in force when they are sent.
+	shrinkMF := tn%7 == 4
+	if shrinkMF {
+		piw = []uint32{65535, 1 << 20}[rnd.Intn(2)]
+		pmf = []uint32{32768, 40000, 1<<24 - 1}[rnd.Intn(3)]
+	}
 	tc.writeSettings(Setting{SettingInitialWindowSize, piw}, Setting{SettingMaxFrameSize, pmf})
 	tc.writeSettingsAck()
 	synctest.Wait()
@@ -178,7 +185,36 @@ func vfFlowClientScenario(tb testing.TB, env *vfEnv, tn int, rnd *rand.Rand) {
 
 	unit := []int{1, 100, 4096, 16384, 70000}[rnd.Intn(5)]
 	nops := env.Int("ops", 40)
-	readHeavy := tn%3 == 0
+	readHeavy := tn%3 == 0 && !shrinkMF
+	if shrinkMF {
+		unit = []int{16384, 20000, 70000}[rnd.Intn(3)]
+		// prologue: request started under the large limit, limit lowered, then body bytes arrive
+		r := &vfFlowReq{}
+		r.body = tc.newRequestBody()
+		req, _ := http.NewRequest("POST", "https://dummy.tld/shrink", r.body)
+		r.rt = tc.roundTrip(req)
+		d.pend = r
+		d.settle()
+		if rnd.Intn(3) != 0 { // sometimes the body is already blocked on flow control when the limit drops
+			n := 70000 + rnd.Intn(3)
+			d.emit(map[string]any{"e": "a_write", "s": r.id, "n": n})
+			r.body.writeBytes(n)
+			d.settle()
+		}
+		pmf = []uint32{16384, 16385, 20000}[rnd.Intn(3)]
+		tc.writeSettings(Setting{SettingInitialWindowSize, piw}, Setting{SettingMaxFrameSize, pmf})
+		d.emit(map[string]any{"e": "p_settings", "iw": int(piw), "mf": int(pmf)})
+		d.settle()
+		tc.writeWindowUpdate(0, 1<<20)
+		d.emit(map[string]any{"e": "p_wu", "s": 0, "inc": 1 << 20})
+		d.settle()
+		if !d.dead && !r.bodyDone && r.id != 0 {
+			n := 40000 + rnd.Intn(30000)
+			d.emit(map[string]any{"e": "a_write", "s": r.id, "n": n})
+			r.body.writeBytes(n)
+			d.settle()
+		}
+	}
 	if readHeavy {
 		unit = []int{100, 1000, 4096}[rnd.Intn(3)]
 		nops += 30
